@@ -127,6 +127,10 @@ class H2Protocol:
                 h2.settings.SettingCodes.ENABLE_CONNECT_PROTOCOL: 1,
             },
         )
+        # h2 only passes the limit on to its header decoder when a
+        # changed setting is acknowledged, which these initial values
+        # never are.
+        self.connection.decoder.max_header_list_size = config.h2_max_header_list_size
 
         self.keep_alive_requests = 0
         self.send = send
